@@ -103,4 +103,7 @@ if (jcol >= LOCOL && jcol <= HICOL)
 	*bcol = fsupc;
 			 
     } /* if bcol_reg < jcol */
+#ifdef SLU_MT_VERIF
+    SLU_MT_VERIF_EVENT(SLUV_MARK_BUSY, pnum, jcol, bcol_reg, *bcol, pxgstrf_shared);
+#endif
 }
